@@ -14,6 +14,9 @@ pub enum Dflt {
     Prev(usize),
     /// the variable `$outer` of the definition site
     Outer,
+    /// `$<name of a later parameter>`: when the default is evaluated that parameter is not bound yet, so the name
+    /// means the global variable of that name at the definition site (value `gl<index into NAMES>`)
+    Later(usize),
 }
 
 #[derive(Clone, Debug, Serialize, Deserialize, PartialEq)]
@@ -101,6 +104,7 @@ fn bind(params: &[Param], rest: bool, positional: &[String], named: &[(usize, bo
                 Some(Dflt::Const(c)) => bound.push(insp(c)),
                 Some(Dflt::Prev(j)) => bound.push(bound.get(*j).cloned().ok_or(())?),
                 Some(Dflt::Outer) => bound.push("outer-value".into()),
+                Some(Dflt::Later(k)) => bound.push(format!("gl{k}")),
             }
         }
     }
@@ -133,6 +137,7 @@ fn decl_params(params: &[Param], rest: bool) -> String {
                 Some(Dflt::Const(c)) => format!("${n}: {c}"),
                 Some(Dflt::Prev(j)) => format!("${n}: ${}", NAMES[params[*j].name]),
                 Some(Dflt::Outer) => format!("${n}: $outer"),
+                Some(Dflt::Later(k)) => format!("${n}: ${}", NAMES[*k]),
             }
         })
         .collect();
@@ -183,7 +188,8 @@ fn source(c: &Case) -> (String, Result<String, ()>) {
             let (pre, args) = call_args(positional, named, list_splat, map_splat);
             let dp = decl_params(params, *rest);
             let print = body_print(params, *rest);
-            let head = "@use \"sass:meta\";\n@use \"sass:map\";\n$outer: outer-value;\n";
+            // (globals named like the parameters: what a default sees when it names a parameter that is not bound yet)
+            let head = "@use \"sass:meta\";\n@use \"sass:map\";\n$outer: outer-value;\n$a: gl0; $b-c: gl1; $d_e: gl2; $f: gl3; $g-h: gl4;\n";
             let src = match kind {
                 0 => format!("{head}@function fn({dp}) {{ @return {print}; }}\n{pre}zzq {{ $outer: call-site; p1: fn({args}); }}\n"),
                 1 => format!("{head}@mixin mx({dp}) {{ p1: {print}; }}\n{pre}zzq {{ $outer: call-site; @include mx({args}); }}\n"),
@@ -224,9 +230,10 @@ fn source(c: &Case) -> (String, Result<String, ()>) {
 
 fn cases() -> impl Strategy<Value = Case> {
     let val = || proptest::sample::select(VALS).prop_map(|s| s.to_string());
-    let params = proptest::collection::vec((0usize..NAMES.len(), 0u8..5, 0usize..4, proptest::sample::select(VALS)), 0..5).prop_map(|v| {
+    let params = proptest::collection::vec((0usize..NAMES.len(), 0u8..7, 0usize..4, proptest::sample::select(VALS)), 0..5).prop_map(|v| {
         let mut out: Vec<Param> = vec![];
         let mut seen_default = false;
+        let mut later: Vec<(usize, usize)> = vec![];
         for (name, d, j, c) in v {
             if out.iter().any(|p| norm(NAMES[p.name]) == norm(NAMES[name])) {
                 continue;
@@ -235,12 +242,24 @@ fn cases() -> impl Strategy<Value = Case> {
                 0 | 1 if !seen_default => None,
                 2 if !out.is_empty() => Some(Dflt::Prev(j % out.len())),
                 3 => Some(Dflt::Outer),
+                5 | 6 => {
+                    // resolved below, once the later parameters are known
+                    later.push((out.len(), j));
+                    Some(Dflt::Const(c.to_string()))
+                }
                 _ => Some(Dflt::Const(c.to_string())),
             };
             if default.is_some() {
                 seen_default = true;
             }
             out.push(Param { name, default });
+        }
+        for (i, j) in later {
+            let after = out.len() - i - 1;
+            if after > 0 {
+                let k = out[i + 1 + j % after].name;
+                out[i].default = Some(Dflt::Later(k));
+            }
         }
         out
     });
@@ -270,7 +289,7 @@ impl Prop for C18 {
         C18
     }
     fn rule(&self) -> String {
-        "declarations with 0..4 parameters named a, b-c, d_e, f, g-h, defaults that are constants, an earlier parameter or a variable of the definition site, optional rest parameter; calls mixing 0..4 positional arguments, 0..2 named arguments (spelled with - or _, sometimes a name no parameter has), a list splat and a map splat; through a function, a mixin, a content block (`@content(args)` into `using (params)`) and a function reached through a forwarding `$args...` wrapper; erroneous calls (too many, unknown, duplicate, missing) arise from the same generator. Plus 11 parameterised templates for the first @return reached, definition-site visibility, @content scope/`using`/absent block/nested content and left-to-right defaults. Oracle: a reference binder predicts the printed value of every parameter, the rest list and meta.keywords, or that the call is an error. Non-trivial: a call with two passing styles, a default that depends on a parameter, or an error case; distinct by case".into()
+        "declarations with 0..4 parameters named a, b-c, d_e, f, g-h, defaults that are constants, an earlier parameter, the name of a later parameter (which then means the global of that name) or a variable of the definition site, optional rest parameter; calls mixing 0..4 positional arguments, 0..2 named arguments (spelled with - or _, sometimes a name no parameter has), a list splat and a map splat; through a function, a mixin, a content block (`@content(args)` into `using (params)`) and a function reached through a forwarding `$args...` wrapper; erroneous calls (too many, unknown, duplicate, missing) arise from the same generator. Plus 11 parameterised templates for the first @return reached, definition-site visibility, @content scope/`using`/absent block/nested content and left-to-right defaults. Oracle: a reference binder predicts the printed value of every parameter, the rest list and meta.keywords, or that the call is an error. Non-trivial: a call with two passing styles, a default that depends on a parameter, or an error case; distinct by case".into()
     }
     fn phases(&self, tier: Tier) -> Vec<Phase<Case>> {
         vec![Phase::random("calls", cases(), tier.pick(40_000, 2_000_000))]
@@ -283,7 +302,7 @@ impl Prop for C18 {
         let (src, want) = source(c);
         let r = rs::compile(src.as_bytes(), &Opts::default());
         let nontrivial = match c {
-            Case::Bind { positional, named, list_splat, map_splat, params, .. } => want.is_err() || [!positional.is_empty(), !named.is_empty(), list_splat.is_some(), map_splat.is_some()].iter().filter(|b| **b).count() >= 2 || params.iter().any(|p| matches!(p.default, Some(Dflt::Prev(_)))),
+            Case::Bind { positional, named, list_splat, map_splat, params, .. } => want.is_err() || [!positional.is_empty(), !named.is_empty(), list_splat.is_some(), map_splat.is_some()].iter().filter(|b| **b).count() >= 2 || params.iter().any(|p| matches!(p.default, Some(Dflt::Prev(_)) | Some(Dflt::Later(_)))),
             Case::Shape { .. } => true,
         };
         match (want, r) {
